@@ -60,6 +60,50 @@ def _rollback_tries(fn: ast.AST):
     return out
 
 
+def _rollback_tries_indexed(fn: ast.AST):
+    """the same discipline kept with a counter: `for k, change in enumerate(<changes> | reversed(<changes>)): change.do()` in the try
+    body and a handler loop over a slice of <changes> bounded by k.  -> (try, handler, body loop, None, handler loop)"""
+    out = []
+    for t in walk_local(fn):
+        if not isinstance(t, ast.Try) or not t.handlers:
+            continue
+        for loop in [x for s_ in t.body for x in [s_, *walk_local(s_)] if isinstance(x, ast.For)]:
+            if not (isinstance(loop.iter, ast.Call) and call_name(loop.iter) == "enumerate" and len(loop.iter.args) == 1 and not loop.iter.keywords
+                    and isinstance(loop.target, ast.Tuple) and len(loop.target.elts) == 2 and all(isinstance(e, ast.Name) for e in loop.target.elts)):
+                continue
+            k = loop.target.elts[0].id
+            for h in t.handlers:
+                for n in [x for s_ in h.body for x in [s_, *walk_local(s_)]]:
+                    if isinstance(n, ast.For) and any(isinstance(y, ast.Name) and y.id == k for y in ast.walk(n.iter)):
+                        out.append((t, h, loop, None, n))
+    return out
+
+
+def _indexed_rollback_verdict(loop: ast.For, hloop: ast.For):
+    """(ok | None, reason) for the counter form"""
+    k = loop.target.elts[0].id
+    it = loop.iter.args[0]
+    backward = isinstance(it, ast.Call) and call_name(it) == "reversed" and len(it.args) == 1
+    e = ast.unparse(it.args[0] if backward else it)
+    h = ast.unparse(hloop.iter)
+    neg = any(isinstance(x, ast.Slice) and any(isinstance(b, ast.UnaryOp) and isinstance(b.op, ast.USub) and isinstance(b.operand, ast.Name) and b.operand.id == k
+                                               for b in (x.lower, x.upper) if b is not None) for x in ast.walk(hloop.iter))
+    if neg:
+        return False, (f"the handler iterates `{h}`: `{k}` counts the steps completed and is 0 when the very FIRST step fails, and a slice bound of -0 is 0 -- "
+                       f"`{e}[-0:]` is the whole list: every sub-change is compensated although none was touched (a swap of two files done by three moves is applied a second time)")
+    if not backward:
+        if h == f"reversed({e}[:{k}])":
+            return True, f"the first {k} sub-changes, the ones completed, are compensated last-first"
+        if h == f"{e}[:{k}]":
+            return False, f"the handler iterates `{h}` in the order the sub-changes were applied: they are undone oldest-first"
+    else:
+        if h in (f"{e}[len({e}) - {k}:]", f"{e}[len({e}) - {k} :]"):
+            return True, f"the last {k} sub-changes, the ones completed, are compensated in their original order"
+        if h in (f"reversed({e}[len({e}) - {k}:])",):
+            return False, f"the handler iterates `{h}`: the sub-changes undone last-first are re-applied last-first"
+    return None, f"counter form not recognised: body over `{ast.unparse(loop.iter)}`, handler over `{h}`"
+
+
 def _insert_discipline(c: ast.Call) -> Optional[str]:
     if c.func.attr == "append":
         return "back"
@@ -229,13 +273,23 @@ def _check_main(ctx, res) -> None:
     for f in sorted(idx.functions.values(), key=lambda f: f.qualname):
         if not f.unit.modname.startswith("rope.base."):
             continue
-        for t, h, loop, ins, hloop in _rollback_tries(f.node):
+        for t, h, loop, ins, hloop in _rollback_tries(f.node) + _rollback_tries_indexed(f.node):
             n_roll += 1
             name = f.qualname.replace("rope.base.change.", "")
-            lst = ins.func.value.id
-            a, b = _insert_discipline(ins), _iter_discipline(hloop, lst)
             where = f"{f.unit.rel}:{hloop.lineno}"
-            if a is None or b is None:
+            if ins is None:
+                okx, why = _indexed_rollback_verdict(loop, hloop)
+                if okx is None:
+                    res.undecided("R10.1", name, where, why)
+                else:
+                    res.add("R10.1", name, okx, where, why, function=f.qualname)
+                a = b = None
+            else:
+                lst = ins.func.value.id
+                a, b = _insert_discipline(ins), _iter_discipline(hloop, lst)
+            if ins is None:
+                pass
+            elif a is None or b is None:
                 res.undecided("R10.1", name, where, f"rollback shape not recognised (insert={a}, iterate={b})")
             else:
                 rev = (a, b) in (("back", "backward"), ("front", "forward"))
@@ -288,6 +342,9 @@ def _check_main(ctx, res) -> None:
                     "rolled back is a task stop, the first compensating call hits the same stop check, raises again, and nothing is rolled back",
                     function=f.qualname)
             # R10.3
+            if ins is None:
+                res.add("R10.3", name, True, f"{f.unit.rel}:{loop.lineno}", "the bookkeeping is the loop counter itself: it advances only when the fallible call has returned", function=f.qualname)
+                continue
             blk = loop.body
             ins_stmt = next((s for s in blk if any(x is ins for x in ast.walk(s))), None)
             ok3, why = None, "append is not a direct statement of the loop body"
